@@ -103,7 +103,7 @@ def _gen_case(case_seed, modes, delays_in_plain=True, plain_delay_p=0.15, far_p=
     if mode in ("delay", "delayvolume"):
         kinds += [k for k in ("neg_delay", "late_delay") if r.random() < 0.5]
     script = eng.gen_script(r, kinds) if kinds and r.random() < 0.6 else []
-    entry = "direct" if (mode == "delayvolume" or (vol and vol.get("spec"))) else r.choice(["direct", "model"])
+    entry = "direct" if (mode == "delayvolume" or (vol and vol.get("spec"))) else r.choice(["direct", "model", "iface"])
     prelude = None
     if r.random() < 0.25:
         # deterministic preludes need a model that stays in the non-negative domain under the ODE: mass action only
@@ -224,7 +224,7 @@ def shrink(case):
             yield dict(case, model=dict(m, init=dict(m["init"], **{s: v // 2})))
     if case.get("safe") and not netgen.consumes_non_massaction(m):
         yield dict(case, safe=False)
-    if case.get("entry") == "model":
+    if case.get("entry") in ("model", "iface"):
         yield dict(case, entry="direct")
     if case.get("vol") and case["vol"].get("spec"):
         yield dict(case, vol={"v0": case["vol"]["v0"]})
